@@ -93,6 +93,30 @@ def conjEmit (M : Nat) (next e : Int) (totA totB res : Amt) : Option Period × I
     if !Amt.isZero M diff then (some ⟨next - e, diff⟩, next, Amt.add res diff) else (none, e, res)
   else (none, e, res)
 
+/-- What the compiler runs for `conjEmit`: `res + (m − res)` written as `max res m`, so that the running total is
+    looked up once per step and not twice (the amounts are functions: looking `res` up twice at every one of `n`
+    steps costs `2ⁿ`).  Proved equal below; `@[csimp]` makes the compiled driver use it, the theorems are about
+    `conjEmit`. -/
+def conjEmitFast (M : Nat) (next e : Int) (totA totB res : Amt) : Option Period × Int × Amt :=
+  let m := Amt.min totA totB
+  if Amt.allLE M res m then
+    let diff := Amt.sub m res
+    if !Amt.isZero M diff then (some ⟨next - e, diff⟩, next, fun d => Max.max (res d) (m d)) else (none, e, res)
+  else (none, e, res)
+
+@[csimp] theorem conjEmit_eq_fast : @conjEmit = @conjEmitFast := by
+  funext M next e totA totB res
+  unfold conjEmit conjEmitFast
+  simp only
+  split
+  · split
+    · congr 2
+      funext d
+      simp only [Amt.add, Amt.sub]
+      omega
+    · rfl
+  · rfl
+
 def consOpt (o : Option Period) (l : List Period) : List Period :=
   match o with
   | some p => p :: l
